@@ -22,11 +22,11 @@ RULES["C20"] = (
     "operation sequences over insert(key in {0,1,2})/pull/peek/extract(any key ever issued) on the real "
     "PriorityQueue and IndexedPriorityQueue, every result compared with a BTreeMap<(key, insertion seq)> "
     "reference: (a) all sequences of the stated length (exhaustive), (b) seeded random sequences biased "
-    "(thorough tier also: part marathon, 2^32 insertions into one indexed queue followed by an equal-key FIFO test and a stale-key extraction) "
+    "(c) part marathon: 2^32 insert/pull cycles on one indexed queue in a single process (about two minutes) followed by an equal-key FIFO test and a stale-key extraction; "
     "towards slot recycling, one in four made of waves (fill to 3-2500 live entries, drain completely, refill, extract through keys of earlier waves); a case is non-trivial when it broke a tie between equal keys or extracted "
     "through a stale key; distinct = distinct operation sequences (hash)")
 PLAN["C20"] = {
-    "quick": [job("native", "exhaustive", 16, 300), job("native", "random", 16, 300)],
+    "quick": [job("native", "exhaustive", 16, 300), job("native", "random", 16, 300), job("native", "marathon", 1, 900)],
     "thorough": [job("native", "exhaustive", 16, 1800), job("native", "random", 16, 1800), job("native", "marathon", 1, 3000),
                  job("miri", "exhaustive", 1, 900), job("miri", "random", 1, 900)],
     "min_evaluations": {"quick": 1000, "thorough": 1000},
